@@ -1,10 +1,127 @@
 (* C11 - fork identities are unique and job notifications reach exactly their
    owner.  Only statements, [exact], and [Print Assumptions]. *)
 From Coq Require Import String.
-From Martian Require Import Lib.Bytes K.ForkName K.Journal Proofs.ForkName.
+From Martian Require Import Lib.Bytes Extracted.Journal K.ForkName K.Journal
+  Proofs.ForkName Proofs.Journal.
 
-(* Distinct map keys have distinct safe (percent-encoded) forms. *)
+(* Distinct map keys have distinct safe (percent-encoded) forms: all keys,
+   any bytes. *)
 Theorem C11_path_escape_inj : forall k1 k2,
   path_escape k1 = path_escape k2 -> k1 = k2.
 Proof. exact path_escape_inj_lemma. Qed.
 Print Assumptions C11_path_escape_inj.
+
+(* The journal encoding of fork ids (the replacer pairs the source has now)
+   is injective on all byte strings, and never produces a dot or a slash. *)
+Theorem C11_journal_encode_inj : forall s t,
+  journal_encode s = journal_encode t -> s = t.
+Proof. exact journal_encode_inj_lemma. Qed.
+Print Assumptions C11_journal_encode_inj.
+
+Theorem C11_journal_token_safe : forall s,
+  contains_byte c_dot (journal_encode s) = false /\
+  contains_byte c_slash (journal_encode s) = false.
+Proof. exact (fun s => conj (journal_no_dot s) (journal_no_slash s)). Qed.
+Print Assumptions C11_journal_token_safe.
+
+(* Two forks of one call (same sources and ranges wherever the indices above
+   agree; arbitrary nesting depth, static or dynamic arrays of any length,
+   maps over any keys) with the same id string - hence the same directory
+   and the same journal token - have the same indices and keys. *)
+Theorem C11_fork_id_inj : forall ps qs s,
+  sib ps qs -> Forall wf_part ps -> Forall wf_part qs ->
+  fork_id ps = Some s -> fork_id qs = Some s -> map p_id ps = map p_id qs.
+Proof. exact fork_id_inj_lemma. Qed.
+Print Assumptions C11_fork_id_inj.
+
+Theorem C11_fork_journal_token_inj : forall ps qs s t,
+  sib ps qs -> Forall wf_part ps -> Forall wf_part qs ->
+  fork_id ps = Some s -> fork_id qs = Some t ->
+  fork_journal_token s = fork_journal_token t -> map p_id ps = map p_id qs.
+Proof.
+  exact (fun ps qs s t H1 H2 H3 E1 E2 E3 =>
+    fork_id_inj_lemma ps qs s H1 H2 H3 E1
+      (eq_ind_r (fun x => fork_id qs = Some x) E2 (journal_encode_inj_lemma s t E3))).
+Qed.
+Print Assumptions C11_fork_journal_token_inj.
+
+(* getFork: for every order of the fork list (static or after dynamic
+   expansion) with pairwise distinct tokens, the fork found for a token is
+   the fork that has it. *)
+Theorem C11_get_fork_exact : forall toks i t,
+  NoDup toks -> nth_error toks i = Some t -> t <> [] ->
+  get_fork false toks t = Some i.
+Proof. exact get_fork_exact_lemma. Qed.
+Print Assumptions C11_get_fork_exact.
+
+(* An update carrying another attempt's uniquifier is not recorded. *)
+Theorem C11_stale_uniquifier_ignored : forall cur seen,
+  uniq_accepts cur seen = true <-> cur = seen.
+Proof. exact uniq_accepts_iff. Qed.
+Print Assumptions C11_stale_uniquifier_ignored.
+
+(* The source still has the pattern, prefixes and file names modelled. *)
+Theorem C11_constants_as_modelled :
+  job_journal_re = job_journal_re_expected /\
+  run_prefix RSplit = splitp /\ run_prefix RJoin = joinp /\
+  forallb (fun f => file_ok (map n2b f)) journaled_file_names = true.
+Proof.
+  exact (conj job_journal_re_unchanged (conj run_prefix_split (conj run_prefix_join journaled_names_ok))).
+Qed.
+Print Assumptions C11_constants_as_modelled.
+
+(* The two defects of the code before the fixes, on the model. *)
+Theorem C11_get_fork_legacy_refuted : exists toks i t,
+  NoDup toks /\ nth_error toks i = Some t /\ t <> [] /\ get_fork true toks t <> Some i.
+Proof. exact get_fork_legacy_refuted. Qed.
+
+(* Non-vacuity. *)
+Definition kS k ks := mkPart MMap true 0 ks RNone (IKey k).
+Definition kV k ks := mkPart MMap false 0 [] (RKeys ks) (IKey k).
+Definition aS i n := mkPart MArray true n [] RNone (IArr i).
+Definition aV i n := mkPart MArray false 0 [] (RArr n) (IArr i).
+
+(* the nested keys (a, b/fork_c) and (a/fork_b, c): siblings, well formed,
+   distinct directories and distinct journal tokens *)
+Example C11_fork_id_inj_nonvacuous :
+  let ks := [bs "a"; bs "a/fork_b"] in
+  let ps := [kS (bs "a") ks; kV (bs "b/fork_c") [bs "b/fork_c"]] in
+  let qs := [kS (bs "a/fork_b") ks; kV (bs "c") [bs "c"]] in
+  sib ps qs /\ Forall wf_part ps /\ Forall wf_part qs /\
+  fork_id ps = Some (bs "fork_a/fork_b%2Ffork_c") /\
+  fork_id qs = Some (bs "fork_a%2Ffork_b/fork_c") /\
+  fork_journal_token (bs "fork_a/fork_b%2Ffork_c") = bs "fork_a%2Ffork_b%252Ffork_c" /\
+  fork_journal_token (bs "fork_a%2Ffork_b/fork_c") = bs "fork_a%252Ffork_b%2Ffork_c".
+Proof.
+  cbv zeta. split.
+  { constructor; [repeat split| |reflexivity]. intro H. vm_compute in H. discriminate. }
+  split. { repeat constructor; vm_compute; congruence. }
+  split. { repeat constructor; vm_compute; congruence. }
+  vm_compute. repeat split.
+Qed.
+
+(* array under array under map, lengths crossing a decimal width *)
+Example C11_fork_id_nested_nonvacuous :
+  let ps := [aS 7 12; aV 10 11; kV (bs "x.y") [bs "x.y"; bs "z"]] in
+  let qs := [aS 7 12; aV 10 11; kV (bs "z") [bs "x.y"; bs "z"]] in
+  sib ps qs /\ Forall wf_part ps /\ Forall wf_part qs /\
+  fork_id ps = Some (bs "fork07_fork10/fork_x.y") /\
+  fork_id qs = Some (bs "fork07_fork10/fork_z") /\
+  fork_id_legacy ps = fork_id_legacy qs.
+Proof.
+  cbv zeta. split.
+  { constructor; [repeat split| |reflexivity]. intros _.
+    constructor; [repeat split| |reflexivity]. intros _.
+    constructor; [repeat split| |reflexivity]. intro H. vm_compute in H. discriminate. }
+  split. { repeat constructor; vm_compute; congruence. }
+  split. { repeat constructor; vm_compute; congruence. }
+  vm_compute. repeat split.
+Qed.
+
+Example C11_get_fork_nonvacuous :
+  let toks := [bs "0_fork0"; bs "1_fork0"; bs "0_fork1"; bs "0"; bs "1"] in
+  NoDup toks /\ get_fork false toks (bs "1") = Some 4%nat /\ get_fork true toks (bs "1") = Some 1%nat.
+Proof.
+  cbv zeta. split; [|vm_compute; split; reflexivity].
+  repeat constructor; cbn; intuition discriminate.
+Qed.
